@@ -114,17 +114,35 @@ def judge_slashing(hs, orderfree=False):
 
 
 def sigcheck(dh, hs):
-    """Every signature the implementation returned at a position where the model predicts success must
-    verify under the addressed account's key over the model's signing root."""
+    """Every signature the implementation returned must verify under the addressed account's key over the signing root of
+    THAT entry's data: the model's root where the model predicts success, otherwise the root the Lean model computes for the
+    entry's own data (so a signature at a position the model would not have signed is still judged)."""
     lines, index = [], []
+    need, need_at = [], []
     for hi, h in enumerate(hs):
         for (k, key, data, sig, i, j, st) in hist.released(h["ops"], h["impl"], h["accts"]):
             mp = hist.payloads_of(h["model"][i]) if i < len(h["model"]) else []
             root = mp[j] if j < len(mp) else None
-            if key is None or root is None:
+            if key is None:
                 continue
-            lines.append("%s %s %s" % (key.hex(), root, sig))
+            if root is None:
+                f = data.split(",")
+                if k == "att" and len(f) == 8:
+                    need.append("aroot " + data)
+                elif k == "prop" and len(f) == 6:
+                    need.append("proot " + data)
+                elif k == "sign" and len(f) == 2 and len(f[0]) == 64 and len(f[1]) == 64:
+                    need.append("sroot %s %s" % (f[1], f[0]))
+                else:
+                    continue
+                need_at.append(len(lines))
+            lines.append([key.hex(), root, sig])
             index.append((hi, i, j))
+    if need:
+        for at, o in zip(need_at, run_model(need)):
+            lines[at][1] = o.strip() if len(o.strip()) == 64 else None
+    keep = [q for q, l in enumerate(lines) if l[1]]
+    lines, index = [" ".join(lines[q]) for q in keep], [index[q] for q in keep]
     if not lines:
         return [], 0
     rc, out, err = sh([dh, "sigcheck"], input="\n".join(lines) + "\n")
